@@ -168,4 +168,27 @@ Qed.
 Theorem ctags_reachable s : reachable c s -> ctags_ok s.
 Proof. apply reachable_inv; [|apply ctags_step]. intros i t a H. simpl in H. contradiction. Qed.
 
+
+(* ---------- only workers reading input i consume from it ---------- *)
+Definition csrc_ok (s : state) : Prop := forall i t a, In (t, a) (consumed s i) -> src c t = SIn i.
+
+Theorem csrc_step s e s' : csrc_ok s -> step c s e = Some s' -> csrc_ok s'.
+Proof.
+  intros HI Hs. destruct (step_effect c s e s' Hs) as [_ He].
+  assert (Hsame : consumed s' = consumed s -> csrc_ok s').
+  { intros E i t a Hin. rewrite E in Hin. eapply HI; eauto. }
+  destruct He as [i x Hi Hcl | i Hi Hcl | k t v rest Hb | k v w eof a rest Hb Hcap Hcl Hw Hc Hs0 | | | w s' Hw He
+                 | w a todo Hw Hc | Hcl Had Hcd | t Ht]; try (apply Hsame; reflexivity).
+  - destruct He as [i a t rest Hsrc Hc Hb | Hsrc Hc | i Hsrc Hc Hb Hcl | ctl' Hcn
+                   | eof a k0 v rest Hc Hs0 Hcl | eof k0 t r rest Hc Hb | dropped Hp Hnd Hnr Hnc Hwhy | eof a k0 v rest Hc Hs0 Hcl];
+      try (apply Hsame; reflexivity).
+    + intros i' t' a' Hin. simpl in Hin. destruct (Nat.eq_dec i' i) as [->|Hne]; upd_simpl_in Hin; [|eapply HI; eauto].
+      apply in_app_or in Hin. destruct Hin as [Hin|[Hin|[]]]; [eapply HI; eauto|]. inversion Hin; subst. exact Hsrc.
+    + apply Hsame. unfold finish. destruct (closer c); auto. apply (close_all_frame (set_w s w _) (wcloses c w)).
+  - apply Hsame. simpl. apply (close_all_frame s (closes c)).
+Qed.
+
+Theorem csrc_reachable s : reachable c s -> csrc_ok s.
+Proof. apply reachable_inv; [|apply csrc_step]. intros i t a H. simpl in H. contradiction. Qed.
+
 End Inv2.
